@@ -149,20 +149,29 @@ SPEC = {
     },
     "C11": {
         "level": "exploration",
-        "rule": "(enum) every word over the 24-letter alphabet {Activate, Deactivate, Attach(d) with a new instance, Attach(d) re-using the detached instance, PushPull(d) with a change, Detach(d), Remove(d)} x 2 "
-                "clients x 2 documents, up to length 4 (quick) / 5 (thorough), one representative per client/document renaming class (~8.7e4 / "
-                "~2.1e6 words; exhaustive:true within that bound; the length-6 scope the property names, ~1.7e7 canonical words, is sampled by "
+        "rule": "(enum) every word over the 28-letter alphabet {Activate, Deactivate, Attach(d) with a new instance, Attach(d) re-using the detached instance, "
+                "Attach(d) with a broken pack (hole in the client sequence: refused, leaves the document 'attaching' for the client), PushPull(d) with a change, Detach(d), Remove(d)} x 2 "
+                "clients x 2 documents, up to length 4 (quick) / 5 (thorough), one representative per client/document renaming class "
+                "(exhaustive:true within that bound; the count is in the evidence; the length-6 scope the property names is sampled by "
                 "the random part), sent through raw RPC peers so that invalid calls reach the server; (random) words of length 6..10 biased "
                 "towards deep states. oracle: a reference automaton written from docs/design/document-client-lifecycle.md decides accept/reject "
                 "per call; a rejected call must not add stored operation rows; an accepted PushPull/Detach stores exactly its change; after "
                 "Remove every later response on that document carries the removed flag and its stored rows no longer grow, and a new attach of "
                 "the key gets a new document id; at the end the server's per-client document statuses equal the model's and a client that is "
                 "the only one still attached can collect all its garbage within 3 syncs (detached/deactivated clients do not hold back GC). "
-                "non-trivial = the word contains >=1 rejected call and >=1 accepted state-changing call; distinct = distinct word",
-        "assumptions": ["in-memory database backend", "Attach always uses a new Document instance (re-attaching a detached instance is documented as unsupported)"],
+                "non-trivial = the word contains >=1 rejected call and >=1 accepted state-changing call; distinct = distinct word. "
+                "(conc, race build) 1..3 raw peers next to one attached witness client, each 1..4 rounds of attach, 0..3 synced edits, then Detach or "
+                "Deactivate IN FLIGHT TOGETHER with 1..3 PushPulls of the same client for the same document (drawn send order); oracle: whatever "
+                "order the server chooses the outcome is one the sequential machine allows - the lifecycle call succeeds, the server records the "
+                "document detached (client deactivated), no change is stored twice, a Detach stores every change it carried, a PushPull sent afterwards "
+                "is refused and stores nothing, and at the end the witness (only client still attached) collects the garbage it creates; "
+                "non-trivial (conc) = >=1 such racing group ran",
+        "assumptions": ["in-memory database backend", "Attach always uses a new Document instance (re-attaching a detached instance is documented as unsupported)",
+                        "the conc part samples schedules; a found failure is replayed by running the case 30 times"],
         "parts": [
             {"name": "enum", "test": "TestC11Enum", "kind": "enum", "checks": [0, 0], "shards": [8, 14], "timeout": [900, 7200]},
             {"name": "random", "test": "TestC11Random", "checks": [1500, 20000], "shards": [4, 14], "timeout": [900, 7200]},
+            {"name": "conc", "test": "TestC11Conc", "pkg": "c16", "race": True, "checks": [60, 1500], "shards": [4, 12], "timeout": [900, 7200]},
         ],
     },
     "C13": {
@@ -180,11 +189,18 @@ SPEC = {
                 "response contains none of the victim's planted markers, keys or token; Admin procedures (except the four password-authenticated ones) without a valid admin credential and Cluster procedures "
                 "without the cluster secret answer unauthenticated; rotated-out or garbage credentials never succeed. The same generated "
                 "requests are also sent with the OWNER's credentials to a control project and the successes counted per procedure (non-vacuity). "
+                "Admin credentials also include tokens of the attacker's existing user signed with the server's key whose lifetime ended 2 s .. 47 h ago, "
+                "and tokens signed with another key: both must answer unauthenticated. "
                 "non-trivial = the request carried >=1 victim identifier and was answered by the handler (not by the credential check); "
-                "distinct = distinct (procedure, credential, picks)",
-        "assumptions": ["in-memory database backend", "no auth webhook configured", "'no credential' resolves to the default project by design (UseDefaultProject) and is treated as one more foreign project"],
+                "distinct = distinct (procedure, credential, picks). "
+                "webhook part: two projects with an authorization webhook each (a local HTTP server with a fixed allow/deny/unauthenticated policy "
+                "over five tokens, different per project); generated sequences of 2..10 requests (project, token, ActivateClient | AttachDocument | "
+                "DeactivateClient, document key); oracle: the server's decision is the decision of that project's webhook for that token, whatever "
+                "was asked (and cached) before; non-trivial (webhook) = the same (token, procedure, key) was sent to both projects and their policies differ for it",
+        "assumptions": ["in-memory database backend", "the matrix part runs without auth webhooks; the webhook part covers ActivateClient/AttachDocument/DeactivateClient only", "'no credential' resolves to the default project by design (UseDefaultProject) and is treated as one more foreign project"],
         "parts": [
             {"name": "matrix", "test": "TestC13", "checks": [2500, 40000], "shards": [4, 14], "timeout": [900, 7200]},
+            {"name": "webhook", "test": "TestC13Webhook", "checks": [150, 3000], "shards": [2, 4], "timeout": [900, 7200]},
         ],
     },
     "C20": {
